@@ -51,6 +51,57 @@ func verifC05(c *drv.Ctx) {
 		payloads = append(payloads, zzref.C05Payload(n))
 	}
 	enumerate := func(yield func(zzref.C05Case) bool) {
+		emit := func(rm int, ad addr, tl, pr int, port uint16, pl []byte, ttl, ipf uint8) bool {
+		cs := zzref.C05Case{
+			Name: func() string {
+				p := "default"
+				if pr >= 0 {
+					p = fmt.Sprint(pr)
+				}
+				return fmt.Sprintf("ttl=%d,ipflags=%d,proto=%s,iplen=%d,dport=%d,payload=%d,%s,%s", ttl, ipf, p, tl, port, len(pl), ad.name, zzref.C05RandNames[rm])
+			},
+			Eval: func() (fails []zzref.C05Fail, frames int, replay any) {
+				opts := []PacketFillerOption{WithTTL(ttl), WithIPFlags(ipf), WithPayload(pl)}
+				w := zzref.C05Want{Link: zzref.LinkEthernet, SrcMAC: srcMAC, DstMAC: dstMAC, SrcIP: ad.src, DstIP: ad.dst, CheckTTL: true, TTL: ttl,
+					CheckIPFlags: true, IPFlags: ipf, Proto: 17, Transport: "udp", DstPort: port, Payload: pl}
+				if pr >= 0 {
+					opts = append(opts, WithIPProtocol(uint8(pr)))
+					w.Proto, w.ProtoOverride = uint8(pr), true
+				}
+				if tl > 0 {
+					opts = append(opts, WithIPTotalLength(uint16(tl)))
+					w.TotalLen = uint16(tl)
+				}
+				dst := net.IP{ad.dst[0], ad.dst[1], ad.dst[2], ad.dst[3]}
+				if ad.dst16 {
+					dst = net.IPv4(ad.dst[0], ad.dst[1], ad.dst[2], ad.dst[3])
+				}
+				req := &scan.Request{SrcIP: net.IP{ad.src[0], ad.src[1], ad.src[2], ad.src[3]}, DstIP: dst, SrcMAC: srcMAC, DstMAC: dstMAC, DstPort: port}
+				mode = rm
+				eth, err1 := fill(NewPacketFiller(opts...), req)
+				mode = rm
+				vpn, err2 := fill(NewPacketFiller(append(opts, WithVPNmode(true))...), req)
+				if len(pl) <= 48 {
+					replay = map[string]string{"eth": zzref.DecHex(eth), "vpn": zzref.DecHex(vpn)}
+				} else {
+					replay = map[string]string{"eth_first_64": zzref.DecHex(zzref.DecHead(eth, 64))}
+				}
+				if err1 != nil || err2 != nil {
+					return []zzref.C05Fail{{Field: "fill-error", Msg: fmt.Sprintf("Fill returned %v / %v", err1, err2)}}, 2, replay
+				}
+				w.DatagramLen = len(vpn)
+				f1, _ := zzref.C05Check(&w, eth)
+				w.Link = zzref.LinkRawIPv4
+				f2, _ := zzref.C05Check(&w, vpn)
+				fails = append(f1, f2...)
+				if !zzref.C05SameDatagram(eth, vpn) {
+					fails = append(fails, zzref.C05Fail{Field: "vpn-is-eth-minus-14", Msg: "the VPN-mode frame is not the Ethernet-mode frame without its 14-byte header and its padding to 60 bytes (same random draws)"})
+				}
+				return fails, 2, replay
+			},
+		}
+			return yield(cs)
+		}
 		for rm := 0; rm < 3; rm++ {
 			for _, ad := range addrs {
 				for _, tl := range lens {
@@ -59,62 +110,24 @@ func verifC05(c *drv.Ctx) {
 							for _, pl := range payloads {
 								for _, ttl := range []uint8{64, 0, 1, 255} {
 									for _, ipf := range []uint8{2, 0, 1, 3, 4, 5, 6, 7} {
-										rm, ad, tl, pr, port, pl, ttl, ipf := rm, ad, tl, pr, port, pl, ttl, ipf
-										cs := zzref.C05Case{
-											Name: func() string {
-												p := "default"
-												if pr >= 0 {
-													p = fmt.Sprint(pr)
-												}
-												return fmt.Sprintf("ttl=%d,ipflags=%d,proto=%s,iplen=%d,dport=%d,payload=%d,%s,%s", ttl, ipf, p, tl, port, len(pl), ad.name, zzref.C05RandNames[rm])
-											},
-											Eval: func() (fails []zzref.C05Fail, frames int, replay any) {
-												opts := []PacketFillerOption{WithTTL(ttl), WithIPFlags(ipf), WithPayload(pl)}
-												w := zzref.C05Want{Link: zzref.LinkEthernet, SrcMAC: srcMAC, DstMAC: dstMAC, SrcIP: ad.src, DstIP: ad.dst, CheckTTL: true, TTL: ttl,
-													CheckIPFlags: true, IPFlags: ipf, Proto: 17, Transport: "udp", DstPort: port, Payload: pl}
-												if pr >= 0 {
-													opts = append(opts, WithIPProtocol(uint8(pr)))
-													w.Proto, w.ProtoOverride = uint8(pr), true
-												}
-												if tl > 0 {
-													opts = append(opts, WithIPTotalLength(uint16(tl)))
-													w.TotalLen = uint16(tl)
-												}
-												dst := net.IP{ad.dst[0], ad.dst[1], ad.dst[2], ad.dst[3]}
-												if ad.dst16 {
-													dst = net.IPv4(ad.dst[0], ad.dst[1], ad.dst[2], ad.dst[3])
-												}
-												req := &scan.Request{SrcIP: net.IP{ad.src[0], ad.src[1], ad.src[2], ad.src[3]}, DstIP: dst, SrcMAC: srcMAC, DstMAC: dstMAC, DstPort: port}
-												mode = rm
-												eth, err1 := fill(NewPacketFiller(opts...), req)
-												mode = rm
-												vpn, err2 := fill(NewPacketFiller(append(opts, WithVPNmode(true))...), req)
-												if len(pl) <= 48 {
-													replay = map[string]string{"eth": zzref.DecHex(eth), "vpn": zzref.DecHex(vpn)}
-												} else {
-													replay = map[string]string{"eth_first_64": zzref.DecHex(zzref.DecHead(eth, 64))}
-												}
-												if err1 != nil || err2 != nil {
-													return []zzref.C05Fail{{Field: "fill-error", Msg: fmt.Sprintf("Fill returned %v / %v", err1, err2)}}, 2, replay
-												}
-												w.DatagramLen = len(vpn)
-												f1, _ := zzref.C05Check(&w, eth)
-												w.Link = zzref.LinkRawIPv4
-												f2, _ := zzref.C05Check(&w, vpn)
-												fails = append(f1, f2...)
-												if !zzref.C05SameDatagram(eth, vpn) {
-													fails = append(fails, zzref.C05Fail{Field: "vpn-is-eth-minus-14", Msg: "the VPN-mode frame is not the Ethernet-mode frame without its 14-byte header and its padding to 60 bytes (same random draws)"})
-												}
-												return fails, 2, replay
-											},
-										}
-										if !yield(cs) {
+										if !emit(rm, ad, tl, pr, port, pl, ttl, ipf) {
 											return
 										}
 									}
 								}
 							}
 						}
+					}
+				}
+			}
+		}
+		// every destination port with everything else fixed: the UDP checksum takes every value, the one
+		// that computes to zero included (RFC 768 gives that value a meaning of its own)
+		for rm := 0; rm < 3; rm++ {
+			for _, pl := range [][]byte{payloads[4], payloads[1]} {
+				for port := 0; port < 65536; port++ {
+					if !emit(rm, addrs[0], 0, -1, uint16(port), pl, 64, 2) {
+						return
 					}
 				}
 			}
@@ -134,7 +147,7 @@ func verifC05(c *drv.Ctx) {
 		c.Infra("harness crashed under vs.Run: %s\n%s", cr.Value, cr.Stack)
 	}
 	c.R.Rule = fmt.Sprintf("%d cases = 3 forced outcomes of every math/rand draw {0, n-1, n/2} x 2 address pairs (4- and 16-byte destination) x total-length override {none,1,28,65535} x protocol {default,157,0,255} x dst port {53,1,65535} x "+
-		"payload length {0,1,2,3,47,48,1472} x TTL {64,0,1,255} x all 8 IP flag subsets; each case = real Fill in Ethernet mode and in VPN mode (2 frames); every case is distinct by construction; "+
+		"payload length {0,1,2,3,47,48,1472} x TTL {64,0,1,255} x all 8 IP flag subsets, plus 3 forced draws x payload {47,1} x ALL 65536 destination ports (the checksum takes every value, zero included); each case = real Fill in Ethernet mode and in VPN mode (2 frames); every case is distinct by construction; "+
 		"oracle = zzref decoders: requested fields verbatim, IPv4 header checksum verifies, IHL 5, total length / UDP length / UDP checksum (pseudo header, odd-length padding) consistent unless an override was requested "+
 		"(then the overridden field verbatim and the dependent checks skipped), VPN frame == Ethernet frame minus 14 bytes, IP id != 0, source port in 32768..60999", cases)
 	c.Set("max_cases_in_space", cases)
